@@ -1035,6 +1035,7 @@ func (pc *PeerConnection) setDescription(sd *SessionDescription, op stateChangeO
 				nextState, err = checkNextSignalingState(cur, SignalingStateStable, setLocal, sd.Type)
 				if err == nil {
 					pc.pendingLocalDescription = nil
+					pc.pendingRemoteDescription = nil
 				}
 			// have-remote-offer->SetLocal(pranswer)->have-local-pranswer
 			case SDPTypePranswer:
@@ -1070,6 +1071,7 @@ func (pc *PeerConnection) setDescription(sd *SessionDescription, op stateChangeO
 				nextState, err = checkNextSignalingState(cur, SignalingStateStable, setRemote, sd.Type)
 				if err == nil {
 					pc.pendingRemoteDescription = nil
+					pc.pendingLocalDescription = nil
 				}
 			// have-local-offer->SetRemote(pranswer)->have-remote-pranswer
 			case SDPTypePranswer:
@@ -1107,6 +1109,11 @@ func (pc *PeerConnection) setDescription(sd *SessionDescription, op stateChangeO
 func (pc *PeerConnection) SetLocalDescription(desc SessionDescription) error {
 	if pc.isClosed.Load() {
 		return &rtcerr.InvalidStateError{Err: ErrConnectionClosed}
+	}
+
+	// A rollback carries no session description: it only cancels the exchange in progress.
+	if desc.Type == SDPTypeRollback {
+		return pc.setDescription(&desc, stateChangeOpSetLocal)
 	}
 
 	haveLocalDescription := pc.currentLocalDescription != nil
@@ -1180,6 +1187,11 @@ func (pc *PeerConnection) LocalDescription() *SessionDescription {
 func (pc *PeerConnection) SetRemoteDescription(desc SessionDescription) error {
 	if pc.isClosed.Load() {
 		return &rtcerr.InvalidStateError{Err: ErrConnectionClosed}
+	}
+
+	// A rollback carries no session description: it only cancels the exchange in progress.
+	if desc.Type == SDPTypeRollback {
+		return pc.setDescription(&desc, stateChangeOpSetRemote)
 	}
 
 	isRenegotiation := pc.currentRemoteDescription != nil
